@@ -210,6 +210,10 @@ func c07Case(ctx *genCtx, ts *tape.Set, dir string) *genResult {
 	if pt.Intn(3) > 0 {
 		prof.Nested = true
 	}
+	if ts.Fork("ext").Intn(4) == 0 {
+		// same-named imported packages present: the import names of the generated file are part of its bytes
+		prof.Ext, prof.Force = true, true
+	}
 	if os.Getenv("VERIF_C07_NOEXT") != "" {
 		prof.Ext, prof.Q = false, false // development aid: measure what module-local imports cost
 	}
